@@ -87,9 +87,9 @@ Begin(e) ==
   /\ e.ev = "begin"
   /\ pc' = PcBefore(l + 2)
   /\ IF O!Defined(e.score)
-     THEN cur' = e.score /\ lstart' = e.score /\ accCur' = e.score
-     ELSE UNCHANGED <<cur, lstart, accCur>>
-  /\ UNCHANGED <<cfg, val, old, kt, cap, rej, conv, t, loop, idx, new, metro, imp, early, fin,
+     THEN cur' = e.score /\ lstart' = e.score /\ accCur' = e.score /\ UNCHANGED fin
+     ELSE fin' = {e.score} /\ UNCHANGED <<cur, lstart, accCur>>
+  /\ UNCHANGED <<cfg, val, old, kt, cap, rej, conv, t, loop, idx, new, metro, imp, early,
                  base, lastAcc, evals, dl, lastKt, stage, hist, ref>>
 
 Propose(e) ==
@@ -128,7 +128,8 @@ Decide(e) ==
   /\ rej' = e.rej
   /\ kt' = KtRec(e.kt)
   /\ t' = t + 1
-  /\ IF e.rej = rej THEN lastAcc' = e.val /\ accCur' = e.cur
+  \* accCur: the score the wrapper saw for the proposal that was kept (not the hook's belief)
+  /\ IF e.rej = rej THEN lastAcc' = e.val /\ accCur' = new
                     ELSE UNCHANGED <<lastAcc, accCur>>
   /\ pc' = PcBefore(l + 2)
   /\ UNCHANGED <<cfg, old, cap, conv, loop, idx, new, metro, lstart, imp, early, fin, base,
